@@ -14,7 +14,7 @@ tvars == <<vars, l>>
 
 Ev == Trace[l]
 
-NoDoc == [fmt |-> "docx", body |-> <<>>, hdr |-> 0, ftr |-> 0]
+NoDoc == [fmt |-> "docx", body |-> <<>>, hdr |-> 0, ftr |-> 0, sheet |-> <<>>]
 
 TraceInit == l = 1 /\ doc = NoDoc /\ pos = 0 /\ out = <<>>
 
@@ -22,14 +22,15 @@ TraceInit == l = 1 /\ doc = NoDoc /\ pos = 0 /\ out = <<>>
 TraceDoc ==
     /\ l <= Len(Trace) /\ Ev.event = "Doc" /\ l' = l + 1
     /\ Done
-    /\ doc' = [fmt |-> Ev.fmt, body |-> Ev.body, hdr |-> Ev.hdr, ftr |-> Ev.ftr]
+    /\ doc' = [fmt |-> Ev.fmt, body |-> Ev.body, hdr |-> Ev.hdr, ftr |-> Ev.ftr, sheet |-> Ev.sheet]
     /\ IsDoc(doc')
     /\ pos' = 0 /\ out' = <<>>
 
 GapOK(e, o) == IF e = "ws" THEN o \in {"ws", "sp"} ELSE o \in {"none", "sp"}
 
 Matches(it, e) ==
-    /\ it.k = e.k
+    \* "PH": the sheet leaves open whether the paragraph is a heading
+    /\ IF it.k = "PH" THEN e.k \in {"P", "H"} ELSE it.k = e.k
     /\ it.ids = e.ids
     /\ it.k \in {"H", "LI"} => it.lvl = e.lvl
     /\ it.k # "TBL" => /\ Len(e.gaps) = Len(it.gaps)
